@@ -386,6 +386,33 @@ func init() {
 	I["fmt.Errorf"] = func(t *Thread, fn *ssa.Function, a []Value) Value {
 		return mkError(t, sprintf(t, a[0].(*StrVal), a[1].(*SliceVal)))
 	}
+	// fmt.Sscan(concrete string, *int64): decided by the real fmt package at encode time
+	I["fmt.Sscan"] = func(t *Thread, fn *ssa.Function, a []Value) Value {
+		str, ok := a[0].(*StrVal).Concrete()
+		sl := a[1].(*SliceVal)
+		if !ok || sl.Len != 1 {
+			unsupportedf("fmt.Sscan: only a concrete string into one *int64 is modelled")
+		}
+		iv, _ := sl.Arr.Elem(sl.Off).V.(*IfaceVal)
+		var cell *Cell
+		if iv != nil {
+			cell, _ = iv.V.(*Cell)
+		}
+		if cell == nil {
+			unsupportedf("fmt.Sscan: destination is not a pointer")
+		}
+		if tt, isT := cell.V.(*Term); !isT || tt.W != 64 {
+			unsupportedf("fmt.Sscan: only *int64 destinations are modelled")
+		}
+		noteStub("fmt.Sscan(concrete string, *int64) decided by the real fmt package at encode time")
+		var x int64
+		n, err := fmt.Sscan(str, &x)
+		if err != nil {
+			return Tuple{MkBV(uint64(n), 64), mkError(t, StrConst(err.Error()))}
+		}
+		cell.V = MkBV(uint64(x), 64)
+		return Tuple{MkBV(uint64(n), 64), (*IfaceVal)(nil)}
+	}
 	I["fmt.Sprint"] = func(t *Thread, fn *ssa.Function, a []Value) Value {
 		sl := a[0].(*SliceVal)
 		out := &StrVal{}
